@@ -90,7 +90,7 @@ def refine_selects_exactly(S, k, fixed, lv):
              simplies(cond, sand(s.shape_ok, seq(s.shape[0], sw), seq(s.shape[1], sh), s.depth_ok, seq(s.depth, depth + levels))))
 
 
-@contract(P, functions=[A + "_split_allocation"], params=[dict(k=1)])
+@contract(P, functions=[A + "_split_allocation"], params=[dict(k=1)], leak_ok=True)
 def split_allocation_shapes(S, k):
     """the recursion contract of _split_allocation (shared with C02), here for the shape / depth clauses"""
     rect, alloc, depth = mk_cell(S, "c", k)
